@@ -87,8 +87,43 @@ def gen_symbols(rng, natypes, symclass):
     return names
 
 
-def gen_truth(rng, kind, origin_class, pbc, posclass, typeclass, symclass, n, Flen=1.0):
-    cell = cells.gen_cell(rng, kind, origin_class, Flen)
+# ---- cells of physical size whatever the length unit of the file (numbers are angstrom = the working unit) ----
+# tilt class = magnitude of the non-zero tilt factors: none / all above one angstrom / all below one angstrom /
+# all far below (1e-5..1e-2 angstrom, still >> the 1e-9 relative clean-up of the cell constructor);
+# tilt mask = which of (xy, xz, yz) are non-zero.
+TILTCLASSES = ['orthogonal', 'tilt-large', 'tilt-sub', 'tilt-tiny']
+TILTMASKS = [(1, 1, 1), (0, 0, 1), (1, 0, 0), (0, 1, 0), (1, 1, 0), (1, 0, 1), (0, 1, 1)]
+
+
+def gen_tilt_cell(rng, tiltclass, mask, origin_class):
+    """LAMMPS-oriented cell with edges 3..30 angstrom (log-uniform) and tilt factors of the given class."""
+    lx, ly, lz = np.exp(rng.uniform(np.log(3.0), np.log(30.0), 3))
+    bound = [0.5 * min(lx, ly), 0.5 * min(lx, lz), 0.5 * min(ly, lz)]
+    t = [0.0, 0.0, 0.0]
+    for k in range(3):
+        sign = float(rng.choice([-1.0, 1.0]))
+        big = rng.uniform(1.3, max(1.6, bound[k]))
+        sub = rng.uniform(0.05, 0.95)
+        tiny = 10.0 ** rng.uniform(-5, -2)
+        if tiltclass != 'orthogonal' and mask[k]:
+            t[k] = sign * {'tilt-large': big, 'tilt-sub': sub, 'tilt-tiny': tiny}[tiltclass]
+    v = G.vects_from_lammps(lx, ly, lz, t[0], t[1], t[2])
+    L = float(np.linalg.norm(v, axis=1).max())
+    o = np.zeros(3) if origin_class == 'zero' else rng.uniform(-2, 2, 3) * L
+    return dict(kind=tiltclass, vects=v, origin=o, lammps=True, tilts=tuple(t))
+
+
+# per-atom property shapes: scalar, every way of having one column without being a scalar, vectors, matrices
+SHAPES = [(), (1,), (2,), (3,), (1, 1), (1, 3), (3, 1), (3, 3), (1, 1, 1), (2, 2)]
+
+
+def shape_name(kind, shape):
+    return {'f': 'flt', 'i': 'int', 'b': 'boo'}[kind] + ('x'.join(str(s) for s in shape) if shape else 's')
+
+
+def gen_truth(rng, kind, origin_class, pbc, posclass, typeclass, symclass, n, Flen=1.0, cell=None):
+    if cell is None:
+        cell = cells.gen_cell(rng, kind, origin_class, Flen)
     v, o = cell['vects'], cell['origin']
     if origin_class == 'far':                     # keep 'far' within what a 13-digit fixed-point print can resolve
         o = o / 10.0
@@ -96,7 +131,7 @@ def gen_truth(rng, kind, origin_class, pbc, posclass, typeclass, symclass, n, Fl
     pos = G.cart(rel, v, o)
     atype = gen_types(rng, n, typeclass)
     natypes = int(atype.max())
-    return dict(kind=kind, vects=v, origin=o, L=float(np.linalg.norm(v, axis=1).max()), pbc=tuple(bool(x) for x in pbc),
+    return dict(kind=cell['kind'], vects=v, origin=o, L=float(np.linalg.norm(v, axis=1).max()), pbc=tuple(bool(x) for x in pbc),
                 rel=rel, pos=pos, atype=atype, natypes=natypes, symbols=gen_symbols(rng, natypes, symclass),
                 lammps=cell['lammps'], posclass=posclass, typeclass=typeclass, symclass=symclass, props={})
 
